@@ -1,8 +1,338 @@
 import CM.Lib.Wire
-/-! Driver handler for C20 (stub: not built yet). -/
-namespace CM.Drv.C20
-open CM.Wire
+import CM.Model.Account
+/-!
+Driver handler for C20.
 
-def handle (_args _impl : List String) : String := bad
+`url …`       the HTTPS rule: model of `newACMEClient(useTestCA)` given Go's url.Parse facts
+`internal …`  `SubjectIsInternal` given Go's host normalisation and net.ParseIP
+`trace …`     a whole observed history of one (CA, contact): storage operations on the two
+              account files and the registration lock, attributed to processes, and the CA's
+              answers. The handler maps each observation to model events (`obs`), validates
+              it against the transition system (`step`: enabled? observed value = model's
+              value?) and prints the final observables; independently `spec` judges the raw
+              observations (the implementation's behaviour) by the property's monitors.
+-/
+namespace CM.Drv.C20
+open CM.Wire CM.Account
+
+def b01 (s : String) : Bool := s = "1"
+
+/-! ### url / internal -/
+
+def showWhich (ca test : String) : Option Which → String
+  | some .ca => "accept " ++ ca
+  | some .test => "accept " ++ test
+  | none => "reject"
+
+def handleUrl (args impl : List String) : String :=
+  match args with
+  | [useTest, testSet, caRaw, caFed, caOK, caScheme, caInt, testRaw, testFed, tOK, tScheme, tInt] =>
+    match decStr caRaw, decStr caFed, decStr caScheme, decStr testRaw, decStr testFed, decStr tScheme with
+    | some caRaw', some caFed', some caSch, some testRaw', some testFed', some tSch =>
+      let ca : UrlFacts := { parseOK := b01 caOK, scheme := caSch, internal := b01 caInt }
+      let test : UrlFacts := { parseOK := b01 tOK, scheme := tSch, internal := b01 tInt }
+      -- the facts must be about the string the model says is parsed
+      if withScheme caRaw' ≠ caFed' || (b01 testSet && withScheme testRaw' ≠ testFed') then
+        reply "bad-feed" "-" "feed"
+      else
+        let w := newClient ca test (b01 testSet) (b01 useTest)
+        -- the directory in use: the CA URL as parsed (scheme added), the test CA as configured
+        let model := showWhich caFed testRaw w
+        let spec := match impl with
+          | ["accept", d] =>
+            let used : Option UrlFacts :=
+              if b01 useTest && b01 testSet && d = testRaw then some test
+              else if d = caFed then some ca else none
+            match used with
+            | some u => if u.parseOK && (u.scheme == httpsL || u.internal) then "ok" else "bad:insecure-url-accepted"
+            | none => "bad:unknown-directory"
+          | ["reject"] => "ok"
+          | _ => "-"
+        let cls (u : UrlFacts) : String :=
+          (if u.parseOK then "" else "E") ++ (if u.scheme == httpsL then "s" else if u.scheme == "http".toList then "h" else "o") ++
+          (if u.internal then "i" else "p")
+        let tag := cls ca ++ (if b01 testSet then "/" ++ cls test else "") ++ (if b01 useTest then "T" else "") ++
+          (if hasSep caRaw' then "" else "+")
+        reply model spec tag
+    | _, _, _, _, _, _ => bad
+  | _ => bad
+
+def decBytes (tok : String) : Option (List Nat) :=
+  if tok = "-" then some [] else
+  (tok.splitOn ".").foldr (fun p acc => match p.toNat?, acc with
+    | some n, some l => some (n :: l)
+    | _, _ => none) (some [])
+
+def handleInternal (args impl : List String) : String :=
+  match args with
+  | [host, ip] =>
+    match decStr host, decBytes ip with
+    | some h, some bytes =>
+      let m := internalHost h bytes
+      let model := if m then "true" else "false"
+      let tag := (if bytes.length = 4 then "4" else if bytes.length = 16 then "6" else "n") ++
+        (if internalIP bytes then "I" else "") ++ (if m && !internalIP bytes then "S" else "")
+      let _ := impl
+      reply model "-" tag
+    | _, _ => bad
+  | _ => bad
+
+/-! ### trace -/
+
+/-- what is pending for a process between two observations that form one model step -/
+inductive Pend
+  | none
+  | reloadReg            -- reload: registration read and found, key read pending
+  | reloadAbsent         -- reload: nothing stored; the new key is learnt at the newAccount request
+  | pre1                 -- storeTx: first of the two preliminary reads done
+  | chk                  -- deleteAccountLocally: registration read and found, key read pending
+  deriving DecidableEq
+
+structure DS where
+  s : St
+  pend : Nat → Pend
+
+def setPend (d : DS) (p : Nat) (v : Pend) : DS := { d with pend := fun q => if q = p then v else d.pend q }
+
+/-- apply model events in turn -/
+def fire (d : DS) (es : List Ev) : Except String DS :=
+  match run d.s es with
+  | some s' => .ok { d with s := s' }
+  | none => .error "not-enabled"
+
+/-- a read result token: "n" = not-exist, "e" = injected error, number = account found -/
+inductive RRes | absent | err | found (a : Nat)
+
+def parseRes (t : String) : Option RRes :=
+  if t = "n" then some .absent else if t = "e" then some .err else t.toNat?.map .found
+
+def agrees (r : RRes) (v : Option Nat) : Bool :=
+  match r, v with
+  | .absent, none => true
+  | .found a, some b => a == b
+  | .err, _ => true
+  | _, _ => false
+
+def okTok (t : String) : Bool := t = "ok"
+
+/-- begin a construction if none is in progress -/
+def autoStart (d : DS) (p : Nat) : Except String DS :=
+  if (d.s.pc p).canStart then fire d [.start p] else .ok d
+
+def obs (d : DS) (tok : String) : Except String DS :=
+  match tok.splitOn ":" with
+  | ["R", ps, "reg", rs] =>
+    match ps.toNat?, parseRes rs with
+    | some p, some r => do
+      let d ← autoStart d p
+      if !agrees r d.s.reg then .error "read-reg-differs" else
+      let flt := match r with | .err => true | _ => false
+      match d.s.pc p with
+      | .loadReg => fire d [.loadReg p flt]
+      | .reload =>
+        if flt then fire d [.reload p true 0]
+        else match r with
+          | .found _ => .ok (setPend d p .reloadReg)
+          | _ => .ok (setPend d p .reloadAbsent)
+      | .savePre _ => if flt then fire d [.savePre p true] else .ok (setPend d p .pre1)
+      | .dneCheck _ =>
+        if flt then fire d [.dneCheck p true]
+        else match r with
+          | .found _ => .ok (setPend d p .chk)
+          | _ => fire d [.dneCheck p false]
+      | _ => .error "read-reg-unexpected"
+    | _, _ => .error "parse"
+  | ["R", ps, "key", rs] =>
+    match ps.toNat?, parseRes rs with
+    | some p, some r =>
+      if !agrees r d.s.key then .error "read-key-differs" else
+      let flt := match r with | .err => true | _ => false
+      match d.s.pc p, d.pend p with
+      | .loadKey _, _ => fire d [.loadKey p flt]
+      | .reload, .reloadReg =>
+        if flt then fire (setPend d p .none) [.reload p true 0]
+        else match r with
+          | .found _ => fire (setPend d p .none) [.reload p false 0]
+          | _ => .ok (setPend d p .reloadAbsent)
+      | .savePre _, .pre1 => fire (setPend d p .none) [.savePre p flt]
+      | .dneCheck _, .chk => fire (setPend d p .none) [.dneCheck p flt]
+      | _, _ => .error "read-key-unexpected"
+    | _, _ => .error "parse"
+  | ["N", ps, ks, out] =>
+    match ps.toNat?, ks.toNat? with
+    | some p, some k =>
+      match d.s.pc p, d.pend p with
+      | .reload, .reloadAbsent =>
+        if out = "c" then fire (setPend d p .none) [.reload p false k, .register p .ok]
+        else if out = "r" then fire (setPend d p .none) [.reload p false k, .register p .refused]
+        else .error "newAccount-outcome"
+      | _, _ => .error "newAccount-unexpected"
+    | _, _ => .error "parse"
+  | ["W", ps, "reg", ks, res] =>
+    match ps.toNat?, ks.toNat? with
+    | some p, some k =>
+      match d.s.pc p with
+      | .saveReg k' => if k ≠ k' then .error "store-reg-other-account" else fire d [.saveReg p (okTok res)]
+      | .rollback _ prev => if prev ≠ some k then .error "restore-reg-other-account" else fire d [.rollback p (okTok res)]
+      | _ => .error "store-reg-unexpected"
+    | _, _ => .error "parse"
+  | ["W", ps, "key", ks, res] =>
+    match ps.toNat?, ks.toNat? with
+    | some p, some k =>
+      match d.s.pc p with
+      | .saveKey k' _ => if k ≠ k' then .error "store-key-other-account" else fire d [.saveKey p (okTok res)]
+      | _ => .error "store-key-unexpected"
+    | _, _ => .error "parse"
+  | ["D", ps, "reg", res] =>
+    match ps.toNat? with
+    | some p =>
+      match d.s.pc p with
+      | .rollback _ prev => if prev ≠ none then .error "rollback-delete-but-previous-existed" else fire d [.rollback p (okTok res)]
+      | .dneDelReg _ => fire d [.dneDelReg p (okTok res)]
+      | _ => .error "delete-reg-unexpected"
+    | none => .error "parse"
+  | ["D", ps, "key", res] =>
+    match ps.toNat? with
+    | some p =>
+      match d.s.pc p with
+      | .dneDelKey _ => fire d [.dneDelKey p (okTok res)]
+      | _ => .error "delete-key-unexpected"
+    | none => .error "parse"
+  | ["L", ps, res] =>
+    match ps.toNat? with
+    | some p =>
+      match d.s.pc p with
+      | .wantLock => fire d [.acq p (okTok res)]
+      | .dneLock _ => fire d [.dneAcq p (okTok res)]
+      | _ => .error "lock-unexpected"
+    | none => .error "parse"
+  | ["U", ps, res] =>
+    match ps.toNat? with
+    | some p =>
+      match d.s.pc p, d.pend p with
+      | .release _, _ => fire d [.rel p (okTok res)]
+      | .dneRel _, _ => fire d [.dneRel p (okTok res)]
+      -- the construction failed between the reload and the newAccount request
+      | .reload, .reloadAbsent =>
+        fire (setPend d p .none) [.reload p false d.s.nextKey, .register p .refused, .rel p (okTok res)]
+      | _, _ => .error "unlock-unexpected"
+    | none => .error "parse"
+  | ["O", ps, as, out] =>
+    match ps.toNat?, as.toNat? with
+    | some p, some a =>
+      match d.s.pc p with
+      | .ready a' k =>
+        if a ≠ a' then .error "order-with-other-account-than-model" else
+        let predicted := if d.s.ca a = false then "dne" else if a' = k then "ok" else "err"
+        if predicted ≠ out then .error ("order-outcome-" ++ predicted) else fire d [.order p]
+      | _ => .error "order-unexpected"
+    | _, _ => .error "parse"
+  | ["F", as] =>
+    match as.toNat? with
+    | some a => fire d [.caForget a]
+    | none => .error "parse"
+  | ["E", ps, res] =>
+    match ps.toNat? with
+    | some p =>
+      match d.s.pc p with
+      | .ready _ _ => if okTok res then .ok d else .error "issue-failed-model-ready"
+      | .failed => if okTok res then .error "issue-ok-model-failed" else .ok d
+      | _ => .error "issue-ended-midway"
+    | none => .error "parse"
+  | _ => .error "token"
+
+def optS : Option Nat → String
+  | some a => toString a
+  | none => "-"
+
+def validate (toks : List String) : String :=
+  let rec go (d : DS) (i : Nat) : List String → String
+    | [] => "ok " ++ toString d.s.registers ++ " " ++ optS d.s.reg ++ " " ++ optS d.s.key
+    | t :: r => match obs d t with
+      | .ok d' => go d' (i + 1) r
+      | .error e => "reject@" ++ toString i ++ ":" ++ e
+  go { s := init, pend := fun _ => .none } 0 toks
+
+/-! The executable specification: monitors over the raw observations. They follow the files'
+contents by replaying the observed successful writes — not the model. -/
+
+structure Mon where
+  reg : Option Nat := none
+  key : Option Nat := none
+  created : Nat := 0
+  faulty : Bool := false        -- a storage fault or a refused registration was observed
+  delKeyFault : Bool := false
+  forgot : Bool := false
+  dne : List Nat := []          -- accounts the CA has disowned
+  bad : Option String := none
+
+def flag (m : Mon) (why : String) : Mon := if m.bad.isSome then m else { m with bad := some why }
+
+def monStep (m : Mon) (tok : String) : Mon :=
+  let complete := m.reg.isSome && m.reg == m.key
+  match tok.splitOn ":" with
+  | ["R", _, _, "e"] => { m with faulty := true }
+  | ["L", _, res] => if okTok res then m else { m with faulty := true }
+  | ["U", _, res] => if okTok res then m else { m with faulty := true }
+  | ["N", _, _, out] =>
+    if out = "c" then
+      let m := { m with created := m.created + 1 }
+      -- registered although a complete account is in storage
+      let m := if complete then flag m "register-while-account-present" else m
+      if m.created > 1 && !m.faulty && !m.forgot then flag m "two-registrations-fault-free" else m
+    else { m with faulty := true }
+  | ["W", _, "reg", ks, res] =>
+    if okTok res then
+      let m := if complete && m.reg != ks.toNat? && !(m.reg.any (fun a => m.dne.contains a)) then
+        flag m "stored-account-replaced-without-dne" else m
+      { m with reg := ks.toNat? }
+    else { m with faulty := true }
+  | ["W", _, "key", ks, res] =>
+    if okTok res then
+      let m := if complete && m.key != ks.toNat? && !(m.reg.any (fun a => m.dne.contains a)) then
+        flag m "stored-account-replaced-without-dne" else m
+      { m with key := ks.toNat? }
+    else { m with faulty := true }
+  | ["D", _, "reg", res] =>
+    if okTok res then
+      let m := if complete && !(m.reg.any (fun a => m.dne.contains a)) then flag m "stored-account-deleted-without-dne" else m
+      { m with reg := none }
+    else { m with faulty := true }
+  | ["D", _, "key", res] =>
+    if okTok res then
+      let m := if complete && !(m.reg.any (fun a => m.dne.contains a)) then flag m "stored-account-deleted-without-dne" else m
+      { m with key := none }
+    else { m with faulty := true, delKeyFault := true }
+  | ["O", _, as, out] =>
+    let m := if out = "dne" then { m with dne := (as.toNat?.toList) ++ m.dne } else m
+    -- in a run without faults and forgetting, every order is placed with the stored account
+    if !m.faulty && !m.forgot && complete && m.reg != as.toNat? then flag m "order-with-unstored-account" else m
+  | ["F", _] => { m with forgot := true }
+  | _ => m
+
+def spec (toks : List String) : String :=
+  let m := toks.foldl monStep {}
+  let m := if !m.delKeyFault && m.reg.isSome && m.key.isSome && m.reg != m.key then flag m "mixed-account-files" else m
+  match m.bad with
+  | some w => "bad:" ++ w
+  | none => "ok"
+
+def traceTag (toks : List String) : String :=
+  let has (pre : String) : Bool := toks.any (fun t => t.startsWith pre)
+  let hasSuf (suf : String) : Bool := toks.any (fun t => t.endsWith suf)
+  let procs := (toks.filterMap (fun t => match t.splitOn ":" with
+    | _ :: p :: _ => p.toNat?
+    | _ => none)).eraseDups.length
+  "p" ++ toString (min procs 9) ++
+  (if has "N:" then "N" else "") ++ (if hasSuf ":e" then "f" else "") ++ (if has "F:" then "F" else "") ++
+  (if hasSuf ":dne" then "d" else "") ++ (if has "D:" then "D" else "") ++
+  (if toks.any (fun t => t.startsWith "W:" && t.endsWith ":e") then "w" else "")
+
+def handle (args impl : List String) : String :=
+  match args with
+  | "url" :: rest => handleUrl rest impl
+  | "internal" :: rest => handleInternal rest impl
+  | "trace" :: toks => reply (validate toks) (spec toks) (traceTag toks)
+  | _ => bad
 
 end CM.Drv.C20
